@@ -8,7 +8,7 @@ cell.go sharedStringsLoader, rows.go getFromStringItem / Rows, file.go Close /
 writeToZip) defined over the regenerated facts `Facts.C12`; `facts_ok` pins
 the facts the proofs were written for.
 -/
-import XlModel.Lemmas.Store8
+import XlModel.Lemmas.Store9
 
 namespace XlModel.Props.C12
 open XlModel XlModel.Store
@@ -51,6 +51,36 @@ theorem limit_rejects (l : Limits) (es : List Entry)
     ((∃ s w, readZip l {} 0 0 es = .ok s w) ∨ (∃ s, readZip l {} 0 0 es = .sizeErr s)) := by
   have h := readZip_verdict l es {} 0 0 hio hnn
   simpa using h
+
+/-- the verdict of ReadZipReader (ok / size error / read error / panic) is a function of the
+limits and the zip directory alone — `verdictOf` never looks at the store — for **arbitrary**
+entry lists: entries whose `Open` fails give the read error, a negative declared size reaching
+`readFile` gives the panic of `make([]byte, 0, negative)`, exactly at the first entry where
+something goes wrong -/
+theorem verdict_state_free (l : Limits) (es : List Entry) (st : St) (t : Int) (ws : Nat) :
+    (readZip l st t ws es).verdict = verdictOf l t es := readZip_verdictOf l es st t ws
+
+/-- `limit_rejects` without hypotheses on the entries: the size error is returned **iff** there is
+a first non-empty prefix whose declared total is `>` UnzipSizeLimit and every entry before it
+was processed without a read error or panic (`entryOutcome = ok`) -/
+theorem limit_rejects_full (l : Limits) (es : List Entry) :
+    (∃ s, readZip l {} 0 0 es = .sizeErr s) ↔
+      ∃ k, k < es.length ∧ declSum (es.take (k + 1)) > l.size ∧
+        (∀ j, j < k → ¬ (declSum (es.take (j + 1)) > l.size)) ∧
+        (∀ j, j < k → ∀ e, es[j]? = some e → entryOutcome l e = .ok) := by
+  have hv := readZip_verdictOf l es {} 0 0
+  have hs := verdictOf_sizeErr l es 0
+  simp only [Int.zero_add] at hs
+  rw [← hs, ← hv]
+  cases readZip l {} 0 0 es <;> simp [ZRes.verdict]
+
+/-- an entry that cannot be opened, or declares a negative size and is read into memory, never
+yields a successful open: success means the limit is respected by every prefix and every
+entry's outcome is ok -/
+theorem open_ok_iff (l : Limits) (es : List Entry) :
+    (∃ s w, readZip l {} 0 0 es = .ok s w) ↔ verdictOf l 0 es = .ok := by
+  rw [← readZip_verdictOf l es {} 0 0]
+  cases readZip l {} 0 0 es <;> simp [ZRes.verdict]
 
 /-- the verdict does not depend on UnzipXMLSizeLimit (which parts are spilled) -/
 theorem limit_verdict_independent_of_xml_limit (x1 x2 size : Int) (es : List Entry)
